@@ -1,6 +1,7 @@
 import Driver.Util
 import StoneVerif.Model.Lex
 import StoneVerif.Model.Stdin
+import StoneVerif.Model.DocTrim
 import Driver.FeRules
 /-! Protocol handlers of the `fe.*` suites. -/
 open Lean
@@ -77,6 +78,13 @@ def handleStdin (j : Json) : Except String Json := do
   pure (ok [("specs", Json.arr (parts.map fun p =>
     Json.arr #[Json.num (p.1 : Nat), Json.str (String.ofList p.2)]).toArray)])
 
+/-- `fe.doctrim` (C11): `{"op":"fe.doctrim","cps":[code point, ...]}` -> `{"cps":[...]}`: the rule
+`docstring : STRING` of the parser (`DocTrim.docClean`) on a text given by its code points -/
+def handleDocTrim (j : Json) : Except String Json := do
+  let cps ← (← jarr j "cps").toList.mapM fun x => (x.getNat? : Except String Nat)
+  let out := StoneVerif.DocTrim.docClean (cps.map Char.ofNat)
+  pure (ok [("cps", Json.arr (out.map fun c => Json.num (c.toNat : Nat)).toArray)])
+
 end FeLex
 /-! end of the `fe.lex` section ------------------------------------------------------------------ -/
 
@@ -84,6 +92,7 @@ def handle (op : String) (j : Json) : Except String Json := do
   match op with
   | "fe.lex" => handleLex j
   | "fe.stdin" => handleStdin j
+  | "fe.doctrim" => handleDocTrim j
   | _ =>
     -- fe.params / fe.names (C01 / C03 component models): Driver/FeRules.lean
     if op.startsWith "fe.params" || op.startsWith "fe.names" then Driver.FeRules.handle op j
